@@ -87,6 +87,10 @@ def run_scenario(chk, sc, cfgseed, axes, serial, fields, default_pos=False):
     try:
         with shims.pool_shim(shims.Scheduler(default="random", rng=random.Random(cfgseed))), shims.poison(SENTINELS[cfgseed % 3]), core.quiet():
             m = Mandoline(d, fields=list(fields), limit_level=lim, serial=serial, verbose=0)
+            if cfgseed % 3 == 0:
+                # a HISTORY on one object: an earlier slice along another normal (at its default position); what it leaves
+                # on the object (axes, position, arrays) must not reach the slice that is judged
+                m.slice(normal=aA, fformat="return")
             out = m.slice(normal=cn, pos=None if default_pos else pos, fformat="return")
         exc = None
     except Exception as e:
